@@ -91,6 +91,7 @@ type G struct {
 	ill      int // effective ill-typed percentage of this case (profile value scaled by the mood)
 	mood     int // 0 full, 1 mild, 2 clean
 	routeRet string
+	hof      bool // cbi / cbp / cb2 exist
 	csePool  map[string][]*Node // small operator expressions already used in this body, by type
 }
 
@@ -426,6 +427,10 @@ func (g *G) intExpr(d int) *Node {
 		g.event("optimizer-shape")
 		return g.optIntShape(d)
 	}
+	if g.hof && !strings.HasPrefix(g.inFunc, "cb") && g.pct("hofint", 6) {
+		g.event("higher-order-builtin")
+		return Call("reduce", g.expr("[int]", d-1), Var("cb2"), g.expr("int", 1))
+	}
 	switch g.n("ik", 12) {
 	case 0, 1, 2, 3, 4:
 		op := g.pick("iop", []string{"+", "-", "*", "+", "-", "*", "/", "%"})
@@ -583,6 +588,16 @@ func (g *G) boolExpr(d int) *Node {
 		g.event("optimizer-shape")
 		return g.optBoolShape(d)
 	}
+	if g.hof && !strings.HasPrefix(g.inFunc, "cb") && g.pct("hofbool", 6) {
+		g.event("higher-order-builtin")
+		switch g.n("hofb", 3) {
+		case 0:
+			return Call("some", g.expr("[int]", d-1), Var("cbp"))
+		case 1:
+			return Call("every", g.expr("[int]", d-1), Var("cbp"))
+		}
+		return Bin(g.pick("hofeq", []string{"==", "!="}), Call("find", g.expr("[int]", d-1), Var("cbp")), Null())
+	}
 	switch g.n("bk", 10) {
 	case 0, 1, 2:
 		op := g.pick("cmp", []string{"<", "<=", ">", ">=", "==", "!="})
@@ -642,6 +657,13 @@ func (g *G) boolExpr(d int) *Node {
 func (g *G) arrIntExpr(d int) *Node {
 	if !g.p.Builtins || g.p.VMOnly {
 		return g.leaf("[int]")
+	}
+	if g.hof && !strings.HasPrefix(g.inFunc, "cb") && g.pct("hofarr", 25) {
+		g.event("higher-order-builtin")
+		if g.pct("hofmap", 60) {
+			return Call("map", g.expr("[int]", d-1), Var("cbi"))
+		}
+		return Call("filter", g.expr("[int]", d-1), Var("cbp"))
 	}
 	switch g.n("ak", 6) {
 	case 0:
@@ -1269,11 +1291,21 @@ func (g *G) mutateStmt() *Node {
 
 // ---- functions, routes, requests -------------------------------------------
 
-func (g *G) genFunc(idx int) Func {
+func (g *G) genFunc(idx int) Func { return g.genFuncSig(idx, "", nil, "") }
+
+// genFuncSig: with a name, the function gets exactly these (required) parameter types and this
+// return type - the helpers handed to map / filter / reduce / some / every / find as callbacks.
+func (g *G) genFuncSig(idx int, fixedName string, fixedParams []string, fixedRet string) Func {
 	name := fmt.Sprintf("fn%d", idx)
 	ret := g.pick("fret", []string{"int", "int", "str", "bool"})
 	np := g.n("np", 4)
+	if fixedName != "" {
+		name, ret, np = fixedName, fixedRet, 0
+	}
 	f := Func{Name: name, Ret: ret}
+	for i, t := range fixedParams {
+		f.Params = append(f.Params, Param{Name: fmt.Sprintf("p%d", i), Type: t, Required: true})
+	}
 	seenOptional := false
 	for i := 0; i < np; i++ {
 		p := Param{Name: fmt.Sprintf("p%d", i), Type: g.pick("pt", []string{"int", "int", "str", "bool"})}
@@ -1542,6 +1574,13 @@ func GenCase(rt *rapid.T, p Profile) Case {
 			g.mood, g.ill = 2, 0
 			g.event("mood:clean")
 		}
+	}
+	if p.Funcs && p.Builtins && p.Arrays && !p.VMOnly && g.pct("hof", 45) {
+		// module functions used as callbacks of the higher-order builtins
+		c.Prog.Funcs = append(c.Prog.Funcs, g.genFuncSig(90, "cbi", []string{"int"}, "int"))
+		c.Prog.Funcs = append(c.Prog.Funcs, g.genFuncSig(91, "cbp", []string{"int"}, "bool"))
+		c.Prog.Funcs = append(c.Prog.Funcs, g.genFuncSig(92, "cb2", []string{"int", "int"}, "int"))
+		g.hof = true
 	}
 	if p.Funcs {
 		nf := g.n("nf", 4)
